@@ -188,6 +188,7 @@ class C18(SeqCheck):
     diff_is_violation = True
     harness = "c18"
     hbin = "h_c18"
+    test_binary = True
     model_entry = "c18_model"
     oracle_entry = None
     quick_n = 2400
@@ -200,8 +201,8 @@ class C18(SeqCheck):
                   "the reversed group (also when repeated), DropNextNWrites discards exactly n, plain writes are FIFO modulo the filter; "
                   "dpipe is FIFO with truncation and the two ends close independently. Tied to the code by differential histories: real "
                   "Bridge (reader goroutine parked, Tick) and real dpipe against the extracted models, every answer compared")
-    level_note = ("trusted: Coq kernel, extraction + driver, harness (the Bridge reader is parked by polling Tick; a read that gets "
-                  "nothing is released through its read deadline); loss chance 0 and no write deadlines; Bridge.Drop with an offset beyond "
+    level_note = ("trusted: Coq kernel, extraction + driver, harness (runs in testing/synctest bubbles: synctest.Wait says when the Bridge reader is parked and when it has returned; "
+                  "a read that gets nothing is released through its read deadline); loss chance 0 and no write deadlines; Bridge.Drop with an offset beyond "
                   "the queue panics in Go and is not issued")
     rule = ("Bridge: 15-75 operations: writes in both directions (messages of 0..20 bytes, first byte a counter), reads with slices of "
             "64/5/2/0 bytes, DropNextNWrites, ReorderNextNWrites (1,2,3,4,0; repeated), Drop(offset,n), Reorder, Filter (4 kinds), Len, "
